@@ -1,6 +1,6 @@
 (* Properties/C01.v -- Encode -> symbol -> decode returns exactly the original bytes (what is a theorem so far). *)
 From Coq Require Import Arith ZArith NArith List Bool.
-From DM Require Import Spec.Stream16022 Proofs.EncAscii Proofs.PlanAscii Model.Planner Generated.Symbols Generated.ModeTables Model.PlannerRun Spec.GF256 Model.Outcome Model.SymbolList Model.RSEnc Model.Dec Model.Enc Model.Api
+From DM Require Import Spec.Stream16022 Proofs.EncAscii Proofs.PlanAscii Proofs.EncB256 Model.Planner Generated.Symbols Generated.ModeTables Model.PlannerRun Spec.GF256 Model.Outcome Model.SymbolList Model.RSEnc Model.Dec Model.Enc Model.Api
   Proofs.Pipeline.
 Import ListNotations.
 
@@ -55,6 +55,16 @@ Theorem C01_ascii_only_roundtrip : forall sorter data symbols cw s,
   decode_data cw = Ok data.
 Proof. intros so d sy cw s HS OK H. exact (proj2 (ascii_only_roundtrip so d sy cw s HS OK H)). Qed.
 Print Assumptions C01_ascii_only_roundtrip.
+
+(* ... and for the Base256-only configuration (ASCII disabled): the optimiser can only answer "Base256 from the first
+   character to the end" (Proofs/PlanB256.v), under which the encoder writes latch, length field (one or two
+   codewords, or 0 when the run fills the symbol exactly), the bytes, all randomised in place, then padding *)
+Theorem C01_base256_only_roundtrip : forall sorter data symbols cw s,
+  (forall k l l', sorter symbols k l = Ok l' -> incl l' l) -> bytes_ok data = true ->
+  encode_data_internal (optimize_fn sorter) data symbols None 32 false false = Ok (cw, s) ->
+  decode_data cw = Ok data.
+Proof. intros so d sy cw s HS OK H. exact (proj2 (b256_only_roundtrip so d sy cw s HS OK H)). Qed.
+Print Assumptions C01_base256_only_roundtrip.
 
 (* NOT a theorem for the other plans: decode_data (data codewords of encode) = Ok input under arbitrary plans of the
    optimiser (the encoder side of C02 for C40/Text/X12/EDIFACT/Base256 runs).  The check evaluates it on every case:
